@@ -56,8 +56,14 @@ func (e *Eff) BlockSchemaFor(typ string) (*schema.BlockSchema, bool) {
 	if b, ok := e.Blocks[typ]; ok {
 		return b, true
 	}
-	if typ == "dynamic" && e.Ext.DynamicBlocks && len(e.Blocks) > 0 {
-		return dynamicBlockSchema(e.Blocks), true
+	if typ == "dynamic" && e.DynKnown {
+		gen := map[string]*schema.BlockSchema{}
+		for n, b := range e.Blocks {
+			if e.DynFor[n] {
+				gen[n] = b
+			}
+		}
+		return dynamicBlockSchema(gen), true
 	}
 	return nil, false
 }
@@ -70,15 +76,16 @@ func EffectiveIn(parent *Eff, bs *schema.BlockSchema, blk *hclsyntax.Block) *Eff
 		return e
 	}
 	_, realDynamic := parent.Blocks["dynamic"]
-	if blk.Type == "dynamic" && !realDynamic && parent.Ext.DynamicBlocks {
+	if blk.Type == "dynamic" && !realDynamic && parent.DynKnown {
 		// the header of a dynamic block: only for_each/iterator/labels and `content` live here;
 		// dynamic blocks are generated inside `content`, not next to it
 		e.Ext.DynamicBlocks = false
+		e.setDyn(false)
 		e.DynCarry = true
 		return e
 	}
-	if parent.Ext.DynamicBlocks || parent.DynCarry {
-		e.Ext.DynamicBlocks = true
+	if parent.DynFor[blk.Type] || parent.DynCarry {
+		e.setDyn(true)
 	}
 	return e
 }
